@@ -28,6 +28,7 @@ def run(ctx):
 
 
 DRIVER_PID = "C18"
+ANCHORS = ["src/ocean_science_utilities/filecache/cache_object.py", "src/ocean_science_utilities/filecache/filecache.py", "src/ocean_science_utilities/filecache/remote_resources.py"]
 READY = True
 LEVEL_TEXT = 'Theorems (Coq, same state machine with fault outcomes as inputs, arbitrary histories): no cache-named file on disk is ever partial - also after the process dies in the middle of a download (partial bytes exist only under the temporary, non-cache name) - so reopening serves only complete files of the right resource; a failed fetch of an uncached URI leaves neither entry nor file and the next request contacts the resource again; a validation-rejected entry is removed (file and entry) and re-fetched; tolerant mode omits / strict mode raises; files not named by a request are unchanged or evicted and the invariant holds after every outcome (returned, raised, crashed). Correspondence: every fault kind (not found, error before write, error after half the bytes, process death after half the bytes via os._exit in a forked child, post-processing error, validation reject / IOError) at every position in exhaustive histories to length 2/3 over a 28-letter alphabet plus random long histories, each followed by retries and reopens, against the real FileCache.'
 LEVEL_NOTE = 'Closed under the global context (no axioms). Trusted as for C18. A process death is simulated by os._exit inside the download function (sequential mode); in parallel mode only non-raising faults are injected because which downloads complete before a raise is decided by thread timing, which the sequential model does not describe.'
